@@ -25,7 +25,8 @@ PROFILE.update(raise_=False, max_ops=9,
                # C03's known findings (values / compilation) are not this check's business
                subscript_whole_array_results=False, minmax_loop_counter=False,
                builtin_set=["<builtin>len", "<builtin>elementwise_abs", "<builtin>norm_2"],
-               extra_kinds=("uvec", "uvec", "uvec", "uvec", "call", "yield", "if", "if"))
+               uvfn_boost=True,
+               extra_kinds=("uvec", "uvec", "uvec", "uvec", "call", "yield", "if", "if", "arrwrite", "arrwrite", "newarr", "utemploop", "utemploop"))
 FEATURE_PROFILE = dict(c03.FEATURE_PROFILE)
 
 
